@@ -462,7 +462,7 @@ def main(ck):
       real.destroy()
 
   try:
-    ck.run_hypothesis(test, ops_strategy(ck.budget(30, 60)), ck.budget(600, 30000), name='vfs-history')
+    ck.run_hypothesis(test, ops_strategy(ck.budget(30, 60)), ck.budget(600, 15000), name='vfs-history')
     probes()
   finally:
     shutil.rmtree(root, ignore_errors=True)
